@@ -260,10 +260,15 @@ def _key_ok(key, want):
         if len(parts) != 2 or parts[0] != ("sym", ("element",)):
             return False
         p = parts[1]
-        if p[0] != "sym" or not (isinstance(p[1], tuple) and p[1][0] == "bmeth" and p[1][1] == "format"):
+        if p[0] != "sym" or not isinstance(p[1], tuple):
             return False
-        fmt, args = p[1][2], p[1][3]
-        return fmt == ("con", repr("{:+}")) and len(args) == 1 and args[0][0] == "num" and "charge" in repr(args[0])
+        t = p[1]
+        if t[0] == "fmt":
+            return t[1] == "+" and t[2][0] == "num" and "charge" in repr(t[2])
+        if t[0] == "bmeth" and t[1] == "format":
+            fmt, args = t[2], t[3]
+            return fmt == ("con", repr("{:+}")) and len(args) == 1 and args[0][0] == "num" and "charge" in repr(args[0])
+        return False
     return key == want
 
 
